@@ -137,8 +137,14 @@ pub assume_specification [ str::trim ] (s: &str) -> (r: &str)
 #[verifier::external_body]
 pub fn into_writer_vec(value: &Value, writer: &mut Vec<u8>) -> (r: core::result::Result<(), cbor::ser::Error<<Vec<u8> as ciborium_io::Write>::Error>>)
 { cbor::ser::into_writer(value, writer) }
+pub uninterp spec fn parse(b: Seq<u8>) -> Option<(Value, int)>;
 #[verifier::external_body]
 pub fn from_reader_slice(slice: &mut &[u8]) -> (r: core::result::Result<Value, cbor::de::Error<ciborium_io::EndOfFile>>)
+    ensures
+        match parse(old(slice)@) {
+            Some((v, n)) => r == Ok::<Value, cbor::de::Error<ciborium_io::EndOfFile>>(v) && 0 < n <= old(slice)@.len() && final(slice)@ == old(slice)@.subrange(n, old(slice)@.len() as int),
+            None => r is Err,
+        }
 { cbor::de::from_reader(slice) }
 #[verifier::external_body]
 pub fn str_ne_string(a: &str, b: &String) -> (r: bool)
